@@ -9,8 +9,10 @@ Open Scope Z_scope.
 Record gvtype := { gv_name : Z; gv_lock_unit : Z; gv_lock : Z; gv_vest_unit : Z; gv_vest : Z; gv_free : Z }.  (* units: 0 day 1 hour 2 minute 3 second, else unknown *)
 Record gtrace := { gt_id : Z; gt_addr : Z; gt_addr_ok : bool; gt_flags : trace }.
 Record gowner := { go_owner : Z; go_addr_ok : bool; go_pools : list pool }.
-Record vgenesis := { vg_denom_nonempty : bool; vg_denom_ok : bool; vg_vtypes : list gvtype; vg_owners : list gowner;
+Record vgenesis := { vg_denom : Z; vg_denom_nonempty : bool; vg_denom_ok : bool; vg_vtypes : list gvtype; vg_owners : list gowner;
                      vg_traces : list gtrace; vg_trace_count : Z }.
+
+(* vg_denom: the vesting denomination of Params, as a number the harness assigns to the string (0 for the empty string) *)
 
 (* ------------------------------------------------------------------ GenesisState.Validate *)
 Definition count_eq (x : Z) (l : list Z) : Z := Z.of_nat (length (filter (Z.eqb x) l)).
@@ -55,7 +57,8 @@ Fixpoint kset {A} (k : Z) (v : A) (l : list (Z * A)) : list (Z * A) :=
   end.
 
 Record vstore := { vs_pools : list (Z * list pool); vs_traces : list (Z * gtrace); vs_trace_count : Z;
-                   vs_vtypes : list (Z * (Z * Z * Z)) }.        (* name -> (lock-up ns, vesting ns, free); names are ranked by their string *)
+                   vs_vtypes : list (Z * (Z * Z * Z));
+                   vs_denom : Z }.        (* name -> (lock-up ns, vesting ns, free); names are ranked by their string *)
 
 (* a genesis vesting type as it is stored: the periods converted to nanoseconds (DurationFromUnits) *)
 Definition gvtype_entry (t : gvtype) : option (Z * (Z * Z * Z)) :=
@@ -80,7 +83,8 @@ Definition vgenesis_init (g : vgenesis) (module_balance : Z) : option vstore :=
     else Some {| vs_pools := fold_left (fun s o => kset (go_owner o) (go_pools o) s) (vg_owners g) [];
                  vs_traces := fold_left (fun s t => kset (gt_addr t) t s) (vg_traces g) [];
                  vs_trace_count := vg_trace_count g;
-                 vs_vtypes := vtypes_store vts |}.
+                 vs_vtypes := vtypes_store vts;
+                 vs_denom := vg_denom g |}.
 
 (* ExportGenesis: pools and traces in store order *)
 Definition vstore_export_owners (s : vstore) : list gowner :=
@@ -109,7 +113,9 @@ Definition vstore_code (s : vstore) : list Z :=
                                                             b2z (t_from_pool (gt_flags (snd e))); b2z (t_from_acct (gt_flags (snd e)))]) (vs_traces s)
   ++ vs_trace_count s :: Z.of_nat (length (vs_vtypes s)) :: flat_map (fun e => [fst e; fst (fst (snd e)); snd (fst (snd e)); snd (snd e)]) (vs_vtypes s)
   (* ... and the vesting types as ExportGenesis lists them *)
-  ++ flat_map (fun t => [gv_name t; gv_lock_unit t; gv_lock t; gv_vest_unit t; gv_vest t; gv_free t]) (vstore_export_vtypes s).
+  ++ flat_map (fun t => [gv_name t; gv_lock_unit t; gv_lock t; gv_vest_unit t; gv_vest t; gv_free t]) (vstore_export_vtypes s)
+  (* ... and the denomination of the parameters ExportGenesis writes *)
+  ++ [vs_denom s].
 
 (* expected: [validation decision] ++ ([0] when InitGenesis panicked | 1 :: code of the store read back through the keeper) *)
 Record vgcase := { vgc_id : Z; vgc_genesis : vgenesis; vgc_module_balance : Z; vgc_expected : list Z }.
